@@ -230,6 +230,10 @@ class Client(base_client.BaseClient):
         for pkt in p.packets[1:]:
             self._receive_packet(pkt)
 
+        if self.state != 'connected':
+            # the connection was closed while the handshake was processed
+            return
+
         if 'websocket' in self.upgrades and 'websocket' in self.transports:
             # attempt to upgrade to websocket
             if self._connect_websocket(url, headers, engineio_path):
